@@ -1,0 +1,93 @@
+//go:build verif
+
+package metadata
+
+// Contracts for govc (contract-based deductive verification; see /verif/DESIGN.md).
+// This file holds only comments and is compiled only with -tags verif.
+
+// C07 safety sweep of the entry points inside the engine's subset: any map (including nil), any key list, any JSON bytes,
+// any duration, any quantity. DecodeMetadata / decodeMetadataMap / resolveAliases* and the mapstructure hooks are
+// reflection-driven and not under contract (see the C07 section of /verif/DESIGN.md).
+
+//@ func GetMetadataPropertyWithMatchedKey
+//@   tags C07
+//@   modifies nothing
+//@   ensures [C07.meta.prop.miss] !ok ==> (key == "" && val == "")
+//@   loop 1 invariant -1 <= rangeindex && rangeindex < len(keys)
+//@   loop 1 decreases len(keys) - rangeindex
+
+//@ func GetMetadataProperty
+//@   tags C07
+//@   modifies nothing
+//@   ensures [C07.meta.prop.miss] !ok ==> val == ""
+
+//@ func (Properties).GetProperty
+//@   tags C07
+//@   modifies nothing
+
+//@ func (Properties).GetPropertyWithMatchedKey
+//@   tags C07
+//@   modifies nothing
+
+//@ func (Duration).MarshalJSON
+//@   tags C07
+//@   modifies nothing
+
+//@ func (*Duration).UnmarshalJSON
+//@   tags C07
+//@   requires d != nil
+//@   modifies d.Duration
+
+//@ func (Duration).ToISOString
+//@   tags C07
+//@   modifies nothing
+//@   ensures [C07.meta.iso.nonempty] len(result) >= 1
+
+//@ func (*ByteSize).GetBytes
+//@   tags C07
+//@   modifies nothing
+//@   ensures [C07.meta.bytes.nil] q == nil ==> (result == 0 && result1 == nil)
+
+//@ func NewByteSize
+//@   tags C07
+//@   modifies nothing
+
+// ---- string decoders (mapstructure decode hooks) ----
+// The hooks are called by mapstructure with f == reflect.TypeOf(data) (assumed hook contract, DESIGN.md C07). For the hooks
+// that compare f with reflect.TypeOf("") this gives: f == stringType ==> data holds a string, which is what their
+// unchecked assertions data.(string) need. toTimeDurationHookFunc's closure switches on f.Kind() instead and is not under
+// contract (see the report: its first case asserts data.(time.Duration) for every f of kind Int64).
+
+// convert: "a, b , c" -> durations; any string.
+//@ func toTimeDurationArrayHookFunc$1
+//@   tags C07
+//@   modifies nothing
+//@   ensures [C07.meta.durs.err] result1 != nil ==> result == nil
+//@   loop 0 invariant -1 <= rangeindex && rangeindex < len(parts) && fresh(res) && 0 <= len(res) && len(res) <= cap(res)
+//@   loop 0 decreases len(parts) - rangeindex
+
+//@ func toTimeDurationArrayHookFunc$2
+//@   tags C07
+//@   requires f == stringType ==> typeis(data, "string")
+//@   requires convert != nil
+
+//@ func toTruthyBoolHookFunc$1
+//@   tags C07
+//@   requires f == stringType ==> typeis(data, "string")
+
+//@ func toStringArrayHookFunc$1
+//@   tags C07
+//@   requires f == stringType ==> typeis(data, "string")
+
+//@ func toByteSizeHookFunc$1
+//@   tags C07
+
+// ---- DecodeMetadata: only the reflective prelude (the part before mapstructure takes over) ----
+// Verified here: the unchecked steps v.FieldByName("Properties") and f.Interface().(map[string]string). decodeMetadataMap /
+// resolveAliases* / mapstructure are outside the engine's subset: the call of decodeMetadataMap is treated as an unknown call.
+// Two obligations are NOT discharged, both genuine (see the report): assert#0 (a "Properties" field of kind Map need not be a
+// map[string]string) and nopanic:FieldByName#0.1 (a "Properties" field promoted through a nil embedded pointer).
+//@ func DecodeMetadata
+//@   tags C07
+//@   replay template decodemetadata
+//@   replay val kind = rvKind(call_ValueOf_0_result)
